@@ -313,6 +313,7 @@ def gen_case(ctx, thorough):
                and math.prod(len(s) - 2 for s in stripes) <= (9 if dim == 1 else 4) and dim <= 2)
     return {"kind": kind, "dim": dim, "lv": lv, "stripes": [[frac_str(c) for c in s] for s in stripes],
             "lam": frac_str(lam), "lumped": lumped, "classes": classes, "numeric": numeric,
+            "reuse": bool(kind == "dimwise" and not numeric and r.random() < 0.5),
             "data": [[frac_str(c) for c in x] for x in data], "big": big, "bigR": bool(big and (thorough or r.random() < 0.35))}
 
 
@@ -649,7 +650,9 @@ def _run_case(ck, case):
             ctx.count("solve_uniform")
     else:
         numeric = bool(case.get("numeric"))
-        op, cont = mk_dimwise(data, dim, lam, lumped, classes, numeric=numeric)
+        reuse = bool(case.get("reuse"))
+        tags = dict(tags, reuse=reuse)
+        op, cont = mk_dimwise(data, dim, lam, lumped, classes, numeric=numeric, reuse=reuse)
         levels = [[node_level(c) for c in s] for s in stripes]
         st = fvs(stripes)
         fstripes = fl(stripes)
@@ -698,6 +701,22 @@ def _run_case(ck, case):
                     if Rm is None:
                         ck.corr("build_R_matrix_dimension_wise", case, "matrix", m[:200])
                     check_matrix(ck, R, Rm, G, lam, case, "build_R_matrix_dimension_wise", tags)
+                    if reuse:
+                        # warm entry cache (old_R): the SAME operation object builds the matrix of this grid again and of a
+                        # refined grid; R = Gram + lambda*I must hold for every one of them (diagonal included)
+                        R2 = op.build_R_matrix_dimension_wise(fstripes, levels)
+                        check_matrix(ck, R2, Rm, G, lam, dict(case, warm="same grid again"), "build_R_matrix_dimension_wise(warm old_R)",
+                                     dict(tags, warm_cache=True))
+                        k = max(range(len(stripes[0]) - 1), key=lambda i: stripes[0][i + 1] - stripes[0][i])
+                        st3 = [list(stripes[0][:k + 1]) + [(stripes[0][k] + stripes[0][k + 1]) / 2] + list(stripes[0][k + 1:])] + [list(t) for t in stripes[1:]]
+                        if math.prod(len(t) - 2 for t in st3) <= 130:
+                            lev3 = [[node_level(c) for c in t] for t in st3]
+                            R3 = op.build_R_matrix_dimension_wise(fl(st3), lev3)
+                            m3 = drv.ask("rdw %s %s 0" % (fvs(st3), frac_str(lam)))
+                            check_matrix(ck, R3, parse_mat(m3[2:]) if m3.startswith("M ") else None, gram_ref(st3), lam,
+                                         dict(case, warm="refined grid", stripes3=[[frac_str(c) for c in t] for t in st3]),
+                                         "build_R_matrix_dimension_wise(warm old_R, refined grid)", dict(tags, warm_cache=True))
+                        ctx.count("matrix_dimwise_reuse_warm_cache")
             ctx.count("matrix_dimwise_%s%s" % ("numeric" if numeric else "analytic", "_lumped" if lumped else ""))
         # ---- right-hand side
         b = op.calculate_B_dimension_wise(op.data, fstripes, levels)
@@ -832,6 +851,7 @@ def run(ctx):
                 "30%; class labels 40%; numeric entries on tiny non-uniform grids; plus StandardCombi runs (combined interpolant). "
                 "A case is distinct by its full description; non-trivial if the grid has >= 2 points or the data >= 2 samples")
     drv = ctx.driver("drv_c16")
+    t_run = time.time()
     for line, want in MALFORMED:
         got = drv.ask(line) if line else drv.ask(" ")
         ctx.count("malformed_lines")
@@ -840,7 +860,7 @@ def run(ctx):
     budget = 70 if not thorough else 560
     n = 220 if not thorough else 3000
     k = 0
-    while k < n and ctx.time_left(budget) > 0:
+    while k < n and time.time() - t_run < budget:      # the budget counts from here, not from the Lean build
         k += 1
         if k % 7 == 0:
             case = combi_case(ctx, drv, thorough)
@@ -864,7 +884,7 @@ def run(ctx):
 def replay(ctx, rp):
     case = rp["case"]
     drv = ctx.driver("drv_c16")
-    base = {k: v for k, v in case.items() if k not in ("hat", "x", "ivec", "point", "lv_component")}
+    base = {k: v for k, v in case.items() if k not in ("hat", "x", "ivec", "point", "lv_component", "warm", "stripes3")}
     if case.get("kind") == "combi":
         ok = run_combi(ctx, drv, base)
     else:
